@@ -86,8 +86,19 @@ func (g *Gen) val() string {
 }
 
 // member/field/element: small universes so that commands collide
-func (g *Gen) member() string { return "m" + strconv.Itoa(g.r.IntN(8)) }
-func (g *Gen) field() string  { return "f" + strconv.Itoa(g.r.IntN(6)) }
+// (a few names are not plain words: format verbs, line breaks, spaces, the empty name)
+func (g *Gen) member() string {
+	if g.chance(10) {
+		return g.pick("m%d", "%", "m\r\n", "", "m 1", "%!s(MISSING)")
+	}
+	return "m" + strconv.Itoa(g.r.IntN(8))
+}
+func (g *Gen) field() string {
+	if g.chance(10) {
+		return g.pick("f%d", "50% off", "%s", "f\r\n1", "", "f%%g")
+	}
+	return "f" + strconv.Itoa(g.r.IntN(6))
+}
 func (g *Gen) elem() string {
 	if g.chance(2) {
 		return "e" + strconv.Itoa(g.r.IntN(4)) // duplicates on purpose
